@@ -289,7 +289,7 @@ fn drive_raw<T: Transport, const N: usize>(t: T, p: &NetParams, rng: &mut SmallR
 
 pub fn run(p: &NetParams, sc: &str) -> (Vec<Vec<String>>, Value) {
     // every third scenario runs on a platform that maps buffers in place (no bounce copies)
-    INPLACE_MODE.with(|m| m.set(p.seed % 3 == 0));
+    INPLACE_MODE.with(|m| m.set(p.seed % 3 == 0 && !adv_active()));
     reset_world();
     INPLACE_MODE.with(|m| m.set(false));
     let mut rng = SmallRng::seed_from_u64(p.seed);
